@@ -194,6 +194,8 @@ type Node struct {
 
 	// scripted callback results
 	FailPreBlock int  // ProcessPreBlock fails this many more times
+	FailSetData  int  // PreBlock.SetData fails this many more times (transient error while building the own pre-commit)
+	FailSign     int  // Block.Sign fails this many more times (transient signer error while building the own commit)
 	FailBlock    int  // ProcessBlock (anti-MEV only) fails this many more times
 	RejectBlocks bool // VerifyBlock returns false regardless of content
 	// RejectHeights: at these heights this node's application rejects every proposed block (a policy difference
@@ -533,6 +535,14 @@ func (n *Node) cbNewBlock(c *dbft.Context[vt.H]) dbft.Block[vt.H] {
 	} else {
 		b = &vt.Block{Header: vt.Header{Idx: c.BlockIndex, Prev: c.PrevHash, Ts: c.Timestamp, Nonce: c.Nonce, TxHashes: append([]vt.H(nil), c.TransactionHashes...)}}
 	}
+	b.FailSign = func() bool {
+		if n.FailSign > 0 {
+			n.FailSign--
+			n.W.Stat("sign_failed")
+			return true
+		}
+		return false
+	}
 	b.OnSign = func(b *vt.Block, key dbft.PrivateKey) {
 		n.ev(EvSign, nil, "")
 		for _, m := range n.W.Mons {
@@ -552,6 +562,14 @@ func (n *Node) cbNewBlock(c *dbft.Context[vt.H]) dbft.Block[vt.H] {
 
 func (n *Node) cbNewPreBlock(c *dbft.Context[vt.H]) dbft.PreBlock[vt.H] {
 	pb := &vt.PreBlock{Header: vt.Header{Idx: c.BlockIndex, Prev: c.PrevHash, Ts: c.Timestamp, Nonce: c.Nonce, TxHashes: append([]vt.H(nil), c.TransactionHashes...)}}
+	pb.FailSetData = func() bool {
+		if n.FailSetData > 0 {
+			n.FailSetData--
+			n.W.Stat("setdata_failed")
+			return true
+		}
+		return false
+	}
 	pb.OnSetData = func(pb *vt.PreBlock, key dbft.PrivateKey) {
 		n.ev(EvSetData, nil, "")
 		for _, m := range n.W.Mons {
